@@ -892,6 +892,13 @@ std::string dumpState(const Schedule& sched, size_t k, const std::set<std::strin
         parts.push_back(o.str());
     }
     parts.push_back("H:" + std::to_string(static_cast<int>(st.whistctl())));
+    {
+        std::ostringstream o; o << "X:";
+        bool f = true;
+        for (const auto& wn : sched.wellNames(k))
+            if (st.wellgroup_events().has(wn) && st.wellgroup_events().hasEvent(wn, ScheduleEvents::WELL_STATUS_CHANGE)) { o << (f ? "" : "/") << wn; f = false; }
+        parts.push_back(o.str());
+    }
     std::string s;
     for (size_t i = 0; i < parts.size(); ++i) s += (i ? ";" : "") + parts[i];
     return s;
